@@ -34,6 +34,9 @@ package receiver
 //@ func (r *Receiver) RunOnce
 //@   requires lock_free_on_entry: !held(r.mu)
 //@   goroutine
+//@   loop 1 ghost loc_ms0 := ghost_loc_mapStores
+//@   after_call snapshot.ParseName#0 ghost loc_isSnapshot := ite(ret1 == nil && ret0.Kind == snapshot.KindSnapshot, 1, 0)
+//@   loop 1 step every_listed_snapshot_is_recorded_whatever_its_instance: ghost_loc_mapStores != ghost_loc_ms0 || r.ignoredFilenames[name] || ghost_loc_isSnapshot == 0
 //@   loop 2 ghost loc_notified := 0
 //@   after_call receiver.(*Downloader).NotifyNewSnapshot#0 ghost loc_notified := 1
 //@   loop 2 step every_new_name_is_notified: ghost_loc_notified == 1 || ni.FullName == lastNotified.FullName || (!includingOwn && inst == r.ownInstance)
